@@ -83,6 +83,108 @@ def strip_cols(line: str, n: int) -> str:
     return line[i:]
 
 
+class Cur:
+    """Column-exact cursor over one source line: a tab is a run of blank cells up to the next
+    multiple-of-four column (counted from the physical line start); cells can be consumed one by one,
+    the unconsumed cells of a split tab are emitted as spaces."""
+
+    def __init__(self, line: str) -> None:
+        self.s = line
+        self.i = 0
+        self.col = 0
+        self.pad = 0
+
+    def take(self, n: int) -> int:
+        got = 0
+        while got < n:
+            if self.pad:
+                self.pad -= 1
+                got += 1
+                continue
+            if self.i >= len(self.s):
+                break
+            ch = self.s[self.i]
+            if ch == " ":
+                self.i += 1
+                self.col += 1
+                got += 1
+            elif ch == "\t":
+                w = 4 - self.col % 4
+                self.i += 1
+                self.col += w
+                self.pad = w - 1
+                got += 1
+            else:
+                break
+        return got
+
+    def blank_ahead(self) -> int:
+        c = Cur(self.s)
+        c.i, c.col, c.pad = self.i, self.col, self.pad
+        return c.take(10**6)
+
+    def rest_len(self) -> int:
+        return self.pad + len(self.s) - self.i
+
+    def at_eol(self) -> bool:
+        return self.pad == 0 and self.i >= len(self.s)
+
+    def rest(self):
+        """Acceptable spellings of the remainder: the unconsumed cells of a split tab as spaces, or the
+        tab kept as written (the property allows either: 'a partially consumed tab may be replaced')."""
+        if self.pad:
+            return (" " * self.pad + self.s[self.i :], "\t" + self.s[self.i :])
+        return (self.s[self.i :],)
+
+
+def enter_quotes(line: str, depth: int):
+    """Cursor positioned after `depth` block-quote markers (each: up to 3 columns of indentation, '>',
+    one optional blank column); None if the line does not have them."""
+    c = Cur(line)
+    for _ in range(depth):
+        if c.blank_ahead() >= 4 and c.blank_ahead() != c.rest_len():
+            return None
+        c.take(3)
+        if c.pad or c.i >= len(c.s) or c.s[c.i] != ">":
+            return None
+        c.i += 1
+        c.col += 1
+        c.take(1)
+    return c
+
+
+def quote_model(kind: str, L: list, b: int, e: int, depth: int, k_content: int):
+    """Expected content lines of a verbatim block whose ancestors are `depth` block quotes only."""
+    out = []
+    if kind == "code_block":
+        for ln in L[b:e]:
+            c = enter_quotes(ln, depth)
+            if c is None:
+                return None
+            c.take(4)
+            out.append(c.rest())
+        return out
+    if kind == "html_block":
+        for ln in L[b:e]:
+            c = enter_quotes(ln, depth)
+            if c is None:
+                return None
+            out.append(c.rest())
+        return out
+    # fence: remove the opener's indentation (in columns, inside the quote) from every content line
+    c0 = enter_quotes(L[b], depth)
+    if c0 is None:
+        return None
+    indent = c0.blank_ahead()
+    for ln in L[b + 1 : b + 1 + k_content]:
+        c = enter_quotes(ln, depth)
+        if c is None:
+            return None
+        c.take(indent)
+        out.append(c.rest())
+    return out
+
+
 def columns(blanks: str) -> int:
     col = 0
     for ch in blanks:
@@ -164,6 +266,14 @@ def check_tokens(src: str, tokens, res: Res, stats: dict) -> None:
                     if top and c != strip_cols(L[b + i], 4):
                         res.fail("code_block:exact-top-level", f"content line {c!r} != model {strip_cols(L[b + i], 4)!r} for {L[b + i]!r}")
                         break
+                else:
+                    if stack and all(a.type == "blockquote_open" for a in stack):
+                        qm = quote_model("code_block", L, b, e, len(stack), 0)
+                        if qm is not None:
+                            stats["exact_model_in_quotes"] = True
+                            if any(y not in x for x, y in zip(qm, cl[:-1])):
+                                j = [y not in x for x, y in zip(qm, cl[:-1])].index(True)
+                                res.fail("code_block:exact-in-quotes", f"content line {cl[j]!r} != column model {qm[j]!r} for source line {L[b + j]!r}")
             if not top or "\t" in "".join(L[b:e]):
                 stats["verbatim_in_container_or_tab"] = True
         elif t.type == "fence":
@@ -197,6 +307,14 @@ def check_tokens(src: str, tokens, res: Res, stats: dict) -> None:
                             if top and cl[i] != strip_cols(L[b + 1 + i], columns(L[b][:first])):
                                 res.fail("fence:exact-top-level", f"content line {cl[i]!r} != model {strip_cols(L[b + 1 + i], columns(L[b][:first]))!r} for {L[b + 1 + i]!r}")
                                 break
+                        else:
+                            if stack and all(a.type == "blockquote_open" for a in stack):
+                                qm = quote_model("fence", L, b, e, len(stack), k)
+                                if qm is not None:
+                                    stats["exact_model_in_quotes"] = True
+                                    if any(y not in x for x, y in zip(qm, cl)):
+                                        j = [y not in x for x, y in zip(qm, cl)].index(True)
+                                        res.fail("fence:exact-in-quotes", f"content line {cl[j]!r} != column model {qm[j]!r} for source line {L[b + 1 + j]!r}")
                         if k == e - b - 2:
                             closing = L[e - 1]
                             if t.markup not in closing:
@@ -225,6 +343,13 @@ def check_tokens(src: str, tokens, res: Res, stats: dict) -> None:
                     else:
                         if top and cl != L[b:e]:
                             res.fail("html_block:exact-top-level", f"{cl!r} != {L[b:e]!r}")
+                        elif stack and all(a.type == "blockquote_open" for a in stack):
+                            qm = quote_model("html_block", L, b, e, len(stack), 0)
+                            if qm is not None:
+                                stats["exact_model_in_quotes"] = True
+                                if any(y not in x for x, y in zip(qm, cl)):
+                                    j = [y not in x for x, y in zip(qm, cl)].index(True)
+                                    res.fail("html_block:exact-in-quotes", f"content line {cl[j]!r} != column model {qm[j]!r} for source line {L[b + j]!r}")
             if not top or "\t" in "".join(L[b:e]):
                 stats["verbatim_in_container_or_tab"] = True
         elif t.type == "hr":
